@@ -6,6 +6,7 @@ pub mod backend;
 pub mod monitors;
 pub mod prims;
 pub mod refimpl;
+pub mod typed;
 #[cfg(not(miri))]
 pub mod rngshim;
 #[cfg(miri)]
